@@ -14,6 +14,23 @@ from harness.z3guard import parser_healthy
 
 EXIT_AFTER = False
 
+# Z3 queries run under wall-clock limits (z3_solve: 500 ms, then retries with shuffled formulas and new
+# random seeds).  A query that hits its limit makes the run timing-dependent; the count is recorded so
+# that C22 can leave such pairs unjudged.
+import z3 as _z3
+Z3_UNKNOWNS = [0]
+_orig_check = _z3.Solver.check
+
+
+def _counting_check(self, *args):
+    r = _orig_check(self, *args)
+    if r == _z3.unknown:
+        Z3_UNKNOWNS[0] += 1
+    return r
+
+
+_z3.Solver.check = _counting_check
+
 
 class Clock:
     """stands in for the `time` module inside isla.solver"""
@@ -87,6 +104,7 @@ def make_solver(case, g):
 def run_case(case):
     global EXIT_AFTER
     random.seed(case.get("seed", 0))
+    Z3_UNKNOWNS[0] = 0
     g = pj.json_to_grammar(case["g"])
     rec = Recorder(case)
     S.time = rec.clock
@@ -134,6 +152,7 @@ def run_case(case):
                 EXIT_AFTER = True
             break
     _verif.set_sink(None)
+    out["z3_unknowns"] = Z3_UNKNOWNS[0]
     return out
 
 
